@@ -44,6 +44,9 @@ def _sg(group):
     # secondary shard groups re-verify the shared value.rs units; count them once (in shard_core)
     return {'group': group, 'exclude_units': SHARD_VALUE_UNITS}
 
+GLOB_KANI = [
+    _kx('glob_matches_reference_bounded', 'glob', bounded='pattern <= 3 bytes, channel <= 4 bytes over the alphabet {a, b, *, ?, \\}; unwind 26', timeout=900),
+]
 SETRANGE_KANI = [
     _kx('setrange_new_bounded', 'setrange', bounded='offset <= 6, value <= 3 symbolic bytes'),
     _kx('setrange_existing_bounded', 'setrange', bounded='existing string <= 4, offset <= 6, value <= 3 symbolic bytes', timeout=900),
@@ -161,6 +164,7 @@ PROPS = {
     'C14': {
         'level': 'proof',
         'verus': [{'group': 'c14_pubsub'}, {'group': 'srv_pubsub'}, {'group': 'srv_wake', 'units': ['cleanup_select_step', 'cleanup_step', 'is_closing']}],
+        'kani': GLOB_KANI,
         'explanation': 'PubSubManager::publish returns exactly one entry per matching subscription and nothing else; subscribe/psubscribe/unsubscribe/punsubscribe keep the three maps in agreement, change only the issuing connection, and acknowledge each name in order with the count right after it; the message/acknowledgement formatters keep channel, pattern and payload bytes intact; Server::handle_publish appends to each receiving connection exactly the frames of its entries, in order, and replies with the number of entries; disconnect: cleanup_connections selects every Closing connection (subscribed or not) and its removal step drops the subscriptions (unsubscribe_all as assumed contract; its loop bodies and last statement are under contract, its HashMap::iter_mut loops are not)',
     },
     'C15': {
